@@ -1,6 +1,10 @@
 import Model.Executor
 namespace Executor
 
+/-- both statement kinds, observed or not: one attempt moves the counter by exactly one -/
+theorem Req.record_eq (r : Req) (c : Nat) : r.record c = c + 1 := by
+  unfold Req.record; split <;> rfl
+
 /-- usable hosts, in iterator order -/
 def usable (hs : List Host) : List Host := hs.filter (fun h => h.up && h.conn)
 
@@ -23,149 +27,226 @@ inductive Walk : List Nat → List Nat → Prop
   | stay (u : Nat) (us as : List Nat) : Walk (u :: us) as → Walk (u :: us) (u :: as)
   | move (u : Nat) (us as : List Nat) : Walk us as → Walk (u :: us) (u :: as)
 
-/-- generalised statement about the loop: what it appends to the trace walks along the current host followed
-    by the usable rest; the budget of an `n ≤ N` policy is respected; the final result is the last attempt's. -/
-theorem doLoop_spec (pol : Option Policy) (outcome : Nat → Res) :
-    ∀ (fuel : Nat) (cur : Option Host) (rest : List Host) (n : Nat) (lastErr : Option Nat) (tr : List Nat),
-    ∃ suffix, (doLoop pol outcome fuel cur rest n lastErr tr).attempts = tr.reverse ++ suffix ∧
-      Walk ((cur.toList ++ usable rest).map (·.id)) suffix ∧
-      (∀ r, (doLoop pol outcome fuel cur rest n lastErr tr).final = .last r → suffix ≠ [] ∧ r = outcome (n + suffix.length - 1)) ∧
-      (∀ k, (doLoop pol outcome fuel cur rest n lastErr tr).final = .lastErr k →
-          (suffix = [] ∧ lastErr = some k) ∨ (suffix ≠ [] ∧ outcome (n + suffix.length - 1) = .err k)) ∧
-      ((doLoop pol outcome fuel cur rest n lastErr tr).final = .noConnections → suffix = [] ∧ lastErr = none) := by
+theorem getLast?_cons_of_some {α : Type} (y x : α) : ∀ (l : List α), l.getLast? = some x → (y :: l).getLast? = some x
+  | [], h => by simp at h
+  | z :: l, h => by simpa [List.getLast?_cons_cons] using h
+
+/-- what the loop guarantees about its output, relative to where it starts: `ids` = the current host followed
+    by the usable rest, `k` = index of the next request, `cnt` = the attempt counter, `lastErr` = previous error -/
+def Good (outcome : Nat → Res) (ids : List Nat) (k cnt : Nat) (lastErr : Option Nat) (o : Out) : Prop :=
+  Walk ids (o.attempts.map (·.host)) ∧
+  o.cnt = cnt + o.attempts.length ∧
+  (∀ i a, o.attempts[i]? = some a → a.idx = cnt + i ∧ a.res = outcome (k + i)) ∧
+  (∀ r, o.final = .last r → ∃ a, o.attempts.getLast? = some a ∧ a.res = r) ∧
+  (∀ e, o.final = .lastErr e →
+      (o.attempts = [] ∧ lastErr = some e) ∨ (∃ a, o.attempts.getLast? = some a ∧ a.res = .err e)) ∧
+  (o.final = .noConnections → o.attempts = [] ∧ lastErr = none)
+
+theorem good_stop (outcome : Nat → Res) (hid : Nat) (us : List Nat) (k cnt cons c : Nat) (lastErr : Option Nat)
+    (f : Final) (hf : f = .last (outcome k) ∨ f = .unknownRetryType) :
+    Good outcome (hid :: us) k cnt lastErr ⟨[⟨hid, cnt, cons, outcome k⟩], f, cnt + 1, c⟩ := by
+  refine ⟨?_, rfl, ?_, ?_, ?_, ?_⟩
+  · exact Walk.stay _ _ _ (Walk.done _)
+  · intro i a h
+    cases i with
+    | zero => simp at h; subst h; simp
+    | succ i => simp at h
+  · intro r hr
+    rcases hf with hf | hf
+    · subst hf; simp at hr; exact ⟨_, rfl, hr⟩
+    · subst hf; simp at hr
+  · intro e he; rcases hf with hf | hf <;> subst hf <;> simp at he
+  · intro he; rcases hf with hf | hf <;> subst hf <;> simp at he
+
+theorem good_push (outcome : Nat → Res) (ids ids' : List Nat) (hid k cnt cons e : Nat) (lastErr : Option Nat) (o : Out)
+    (hk : outcome k = .err e)
+    (hw : ∀ s, Walk ids' s → Walk ids (hid :: s))
+    (h : Good outcome ids' (k + 1) (cnt + 1) (some e) o) :
+    Good outcome ids k cnt lastErr (o.push ⟨hid, cnt, cons, outcome k⟩) := by
+  obtain ⟨h1, h2, h3, h4, h5, h6⟩ := h
+  refine ⟨?_, ?_, ?_, ?_, ?_, ?_⟩
+  · simpa [Out.push] using hw _ h1
+  · simp only [Out.push, List.length_cons]; omega
+  · intro i a ha
+    cases i with
+    | zero => simp [Out.push] at ha; subst ha; simp
+    | succ i =>
+      simp only [Out.push, List.getElem?_cons_succ] at ha
+      obtain ⟨g1, g2⟩ := h3 i a ha
+      refine ⟨by omega, ?_⟩
+      rw [g2]; congr 1; omega
+  · intro r hr
+    obtain ⟨a, ha1, ha2⟩ := h4 r hr
+    exact ⟨a, getLast?_cons_of_some _ _ _ ha1, ha2⟩
+  · intro e' he
+    right
+    rcases h5 e' he with ⟨g1, g2⟩ | ⟨a, ha1, ha2⟩
+    · simp only [Option.some.injEq] at g2; subst g2
+      refine ⟨⟨hid, cnt, cons, outcome k⟩, ?_, hk⟩
+      simp [Out.push, g1]
+    · exact ⟨a, getLast?_cons_of_some _ _ _ ha1, ha2⟩
+  · intro he
+    have := (h6 he).2
+    simp at this
+
+/-- generalised statement about the loop -/
+theorem doLoop_good (req : Req) (pol : Option Policy) (outcome : Nat → Res) :
+    ∀ (fuel : Nat) (cur : Option Host) (rest : List Host) (k cnt cons : Nat) (lastErr : Option Nat),
+    Good outcome ((cur.toList ++ usable rest).map (·.id)) k cnt lastErr
+      (doLoop req pol outcome fuel cur rest k cnt cons lastErr) := by
   intro fuel
   induction fuel with
   | zero =>
-    intro cur rest n lastErr tr
-    refine ⟨[], by simp [doLoop], Walk.done _, ?_, ?_, ?_⟩ <;> simp [doLoop]
+    intro cur rest k cnt cons lastErr
+    refine ⟨Walk.done _, rfl, ?_, ?_, ?_, ?_⟩ <;> simp [doLoop]
   | succ fuel ih =>
-    intro cur rest n lastErr tr
+    intro cur rest k cnt cons lastErr
     cases cur with
     | none =>
       cases lastErr with
-      | none => refine ⟨[], by simp [doLoop], Walk.done _, ?_, ?_, ?_⟩ <;> simp [doLoop]
-      | some k => refine ⟨[], by simp [doLoop], Walk.done _, ?_, ?_, ?_⟩ <;> simp [doLoop]
+      | none => refine ⟨Walk.done _, rfl, ?_, ?_, ?_, ?_⟩ <;> simp [doLoop]
+      | some e => refine ⟨Walk.done _, rfl, ?_, ?_, ?_, ?_⟩ <;> simp [doLoop]
     | some h =>
-      -- the attempt on h
-      have stop : ∀ (fin : Final), (fin = .last (outcome n) ∨ fin = .unknownRetryType) →
-          ∃ suffix, (h.id :: tr).reverse = tr.reverse ++ suffix ∧
-            Walk (((some h).toList ++ usable rest).map (·.id)) suffix ∧
-            (∀ r, fin = .last r → suffix ≠ [] ∧ r = outcome (n + suffix.length - 1)) ∧
-            (∀ k, fin = .lastErr k → (suffix = [] ∧ lastErr = some k) ∨ (suffix ≠ [] ∧ outcome (n + suffix.length - 1) = .err k)) ∧
-            (fin = .noConnections → suffix = [] ∧ lastErr = none) := by
-        intro fin hfin
-        refine ⟨[h.id], by simp, ?_, ?_, ?_, ?_⟩
-        · simp only [Option.toList, List.cons_append, List.nil_append, List.map_cons]
-          exact Walk.stay _ _ _ (Walk.done _)
-        · intro r hr; rcases hfin with hf | hf <;> rw [hf] at hr <;> simp at hr ⊢; exact hr.symm
-        · intro k hk; rcases hfin with hf | hf <;> rw [hf] at hk <;> simp at hk
-        · intro hk; rcases hfin with hf | hf <;> rw [hf] at hk <;> simp at hk
-      simp only [doLoop]
-      cases hr : outcome n with
-      | logical => simp only []; exact stop _ (Or.inl (by rw [hr]))
-      | ok => simp only []; exact stop _ (Or.inl (by rw [hr]))
-      | err k =>
+      have ids : ((some h).toList ++ usable rest).map (·.id) = h.id :: (usable rest).map (·.id) := by simp
+      rw [ids]
+      simp only [doLoop, Req.record_eq]
+      cases hr : outcome k with
+      | logical => simp only []; rw [← hr]; exact good_stop _ _ _ _ _ _ _ _ _ (Or.inl (by rw [hr]))
+      | ok => simp only []; rw [← hr]; exact good_stop _ _ _ _ _ _ _ _ _ (Or.inl (by rw [hr]))
+      | err e =>
         simp only []
         cases pol with
-        | none => simp only []; exact stop _ (Or.inl (by rw [hr]))
+        | none => simp only []; rw [← hr]; exact good_stop _ _ _ _ _ _ _ _ _ (Or.inl (by rw [hr]))
         | some p =>
           simp only []
-          by_cases hat : p.attempt (n+1) = true
+          by_cases hat : p.attempt (cnt + 1) = true
           · simp only [hat, Bool.not_true, Bool.false_eq_true, if_false]
-            -- continuing: combine the attempt on h with the recursive suffix
-            have cont : ∀ (cur' : Option Host) (rest' : List Host),
-                (∀ s, Walk ((cur'.toList ++ usable rest').map (·.id)) s →
-                      Walk (((some h).toList ++ usable rest).map (·.id)) (h.id :: s)) →
-                ∃ suffix, (doLoop (some p) outcome fuel cur' rest' (n+1) (some k) (h.id :: tr)).attempts = tr.reverse ++ suffix ∧
-                  Walk (((some h).toList ++ usable rest).map (·.id)) suffix ∧
-                  (∀ r, (doLoop (some p) outcome fuel cur' rest' (n+1) (some k) (h.id :: tr)).final = .last r → suffix ≠ [] ∧ r = outcome (n + suffix.length - 1)) ∧
-                  (∀ k', (doLoop (some p) outcome fuel cur' rest' (n+1) (some k) (h.id :: tr)).final = .lastErr k' →
-                      (suffix = [] ∧ lastErr = some k') ∨ (suffix ≠ [] ∧ outcome (n + suffix.length - 1) = .err k')) ∧
-                  ((doLoop (some p) outcome fuel cur' rest' (n+1) (some k) (h.id :: tr)).final = .noConnections → suffix = [] ∧ lastErr = none) := by
-              intro cur' rest' hw
-              obtain ⟨s, hs1, hs2, hs3, hs4, hs5⟩ := ih cur' rest' (n+1) (some k) (h.id :: tr)
-              refine ⟨h.id :: s, by rw [hs1]; simp, hw s hs2, ?_, ?_, ?_⟩
-              · intro r hfin
-                obtain ⟨hne, hre⟩ := hs3 r hfin
-                refine ⟨by simp, ?_⟩
-                rw [hre]; congr 1
-                have : s.length ≠ 0 := by intro h0; exact hne (List.length_eq_zero_iff.mp h0)
-                simp only [List.length_cons]; omega
-              · intro k' hfin
-                right
-                refine ⟨by simp, ?_⟩
-                rcases hs4 k' hfin with ⟨hse, hk⟩ | ⟨hne, hoc⟩
-                · subst hse
-                  simp at hk; subst hk
-                  simpa using hr
-                · rw [← hoc]; congr 1
-                  have : s.length ≠ 0 := by intro h0; exact hne (List.length_eq_zero_iff.mp h0)
-                  simp only [List.length_cons]; omega
-              · intro hfin
-                have := (hs5 hfin).2
-                simp at this
-            cases hrt : p.rtype k with
+            cases hrt : p.rtype e with
             | retry =>
-              simp only []
-              exact cont (some h) rest (fun s hs => Walk.stay _ _ _ hs)
-            | rethrow => simp only []; exact stop _ (Or.inl (by rw [hr]))
-            | ignore => simp only []; exact stop _ (Or.inl (by rw [hr]))
-            | unknown => simp only []; exact stop _ (Or.inr rfl)
+              simp only []; rw [← hr]
+              refine good_push outcome _ _ _ _ _ _ e _ _ hr ?_ (ih (some h) rest (k+1) (cnt+1) _ (some e))
+              intro s hs
+              simp only [Option.toList, List.cons_append, List.nil_append, List.map_cons] at hs
+              exact Walk.stay _ _ _ hs
+            | rethrow => simp only []; rw [← hr]; exact good_stop _ _ _ _ _ _ _ _ _ (Or.inl (by rw [hr]))
+            | ignore => simp only []; rw [← hr]; exact good_stop _ _ _ _ _ _ _ _ _ (Or.inl (by rw [hr]))
+            | unknown => simp only []; rw [← hr]; exact good_stop _ _ _ _ _ _ _ _ _ (Or.inr rfl)
             | nextHost =>
               simp only []
               rcases nextUsable_spec rest with ⟨hn, hu⟩ | ⟨h', rest', hn, hu⟩
-              · simp only [hn]
-                refine cont none [] (fun s hs => ?_)
+              · simp only [hn]; rw [← hr]
+                refine good_push outcome _ _ _ _ _ _ e _ _ hr ?_ (ih none [] (k+1) (cnt+1) _ (some e))
+                intro s hs
                 simp only [Option.toList, List.nil_append, usable, List.filter_nil, List.map_nil] at hs
                 cases hs
-                simp only [Option.toList, List.cons_append, List.nil_append, List.map_cons]
                 exact Walk.stay _ _ _ (Walk.done _)
-              · simp only [hn]
-                refine cont (some h') rest' (fun s hs => ?_)
-                simp only [Option.toList, List.cons_append, List.nil_append, List.map_cons, hu] at hs ⊢
+              · simp only [hn]; rw [← hr]
+                refine good_push outcome _ _ _ _ _ _ e _ _ hr ?_ (ih (some h') rest' (k+1) (cnt+1) _ (some e))
+                intro s hs
+                simp only [Option.toList, List.cons_append, List.nil_append, List.map_cons] at hs
+                rw [hu]
                 exact Walk.move _ _ _ hs
-          · have hat' : p.attempt (n+1) = false := by simpa using hat
+          · have hat' : p.attempt (cnt + 1) = false := by simpa using hat
             simp only [hat', Bool.not_false, if_true]
-            exact stop _ (Or.inl (by rw [hr]))
+            rw [← hr]; exact good_stop _ _ _ _ _ _ _ _ _ (Or.inl (by rw [hr]))
 
-/-- budget lemma for policies of the form `Attempts() <= N` -/
-theorem doLoop_budget (p : Policy) (N : Nat) (hp : ∀ m, p.attempt m = decide (m ≤ N)) (outcome : Nat → Res) :
-    ∀ (fuel : Nat) (cur : Option Host) (rest : List Host) (n : Nat) (lastErr : Option Nat) (tr : List Nat),
-    n ≤ N → (doLoop (some p) outcome fuel cur rest n lastErr tr).attempts.length ≤ tr.length + (N + 1 - n) := by
+/-- budget lemma for policies of the form `Attempts() ≤ N`, for every statement kind, observed or not, and every
+    starting value of the counter: one attempt is always made; a further one only while the counter is ≤ N -/
+theorem doLoop_budget (req : Req) (p : Policy) (N : Nat) (hp : ∀ m, p.attempt m = decide (m ≤ N)) (outcome : Nat → Res) :
+    ∀ (fuel : Nat) (cur : Option Host) (rest : List Host) (k cnt cons : Nat) (lastErr : Option Nat),
+    (doLoop req (some p) outcome fuel cur rest k cnt cons lastErr).attempts.length ≤ 1 + (N - cnt) := by
   intro fuel
   induction fuel with
-  | zero => intro cur rest n lastErr tr hn; simp [doLoop]
+  | zero => intro cur rest k cnt cons lastErr; simp [doLoop]
   | succ fuel ih =>
-    intro cur rest n lastErr tr hn
+    intro cur rest k cnt cons lastErr
     cases cur with
     | none => cases lastErr <;> simp [doLoop]
     | some h =>
-      simp only [doLoop]
-      cases hr : outcome n with
-      | logical => simp; omega
-      | ok => simp; omega
-      | err k =>
+      simp only [doLoop, Req.record_eq]
+      cases hr : outcome k with
+      | logical => simp
+      | ok => simp
+      | err e =>
         simp only [hp]
-        by_cases hle : n + 1 ≤ N
+        by_cases hle : cnt + 1 ≤ N
         · simp only [hle, decide_true, Bool.not_true, Bool.false_eq_true, if_false]
-          cases p.rtype k with
+          cases p.rtype e with
           | retry =>
-            have := ih (some h) rest (n+1) (some k) (h.id :: tr) hle
-            simp only [List.length_cons] at this; simp only []; omega
-          | rethrow => simp; omega
-          | ignore => simp; omega
-          | unknown => simp; omega
+            have := ih (some h) rest (k+1) (cnt+1) ((p.newCons (cnt+1)).getD cons) (some e)
+            simp only [Out.push, List.length_cons]; omega
+          | rethrow => simp
+          | ignore => simp
+          | unknown => simp
           | nextHost =>
             simp only []
             cases nextUsable rest with
             | none =>
-              have := ih none [] (n+1) (some k) (h.id :: tr) hle
-              simp only [List.length_cons] at this; simp only []; omega
+              have := ih none [] (k+1) (cnt+1) ((p.newCons (cnt+1)).getD cons) (some e)
+              simp only [Out.push, List.length_cons]; omega
             | some hr' =>
               obtain ⟨h', rest'⟩ := hr'
-              have := ih (some h') rest' (n+1) (some k) (h.id :: tr) hle
-              simp only [List.length_cons] at this; simp only []; omega
+              have := ih (some h') rest' (k+1) (cnt+1) ((p.newCons (cnt+1)).getD cons) (some e)
+              simp only [Out.push, List.length_cons]; omega
         · simp only [hle, decide_false, Bool.not_false, if_true]
-          simp; omega
+          simp
+
+/-- consistency of the attempts: the first request carries the statement's level; every later one carries what
+    the policy's `Attempt` set when it allowed that retry (or the previous level if it set none) -/
+theorem doLoop_cons (req : Req) (p : Policy) (outcome : Nat → Res) :
+    ∀ (fuel : Nat) (cur : Option Host) (rest : List Host) (k cnt cons : Nat) (lastErr : Option Nat),
+    let o := doLoop req (some p) outcome fuel cur rest k cnt cons lastErr
+    (∀ a, o.attempts[0]? = some a → a.cons = cons) ∧
+    (∀ i a b, o.attempts[i]? = some a → o.attempts[i+1]? = some b → b.cons = (p.newCons (cnt + i + 1)).getD a.cons) := by
+  intro fuel
+  induction fuel with
+  | zero => intro cur rest k cnt cons lastErr; simp [doLoop]
+  | succ fuel ih =>
+    intro cur rest k cnt cons lastErr
+    cases cur with
+    | none => cases lastErr <;> simp [doLoop]
+    | some h =>
+      have push : ∀ (o : Out) (a0 : Att), a0.cons = cons →
+          ((∀ a, o.attempts[0]? = some a → a.cons = (p.newCons (cnt + 1)).getD cons) ∧
+           (∀ i a b, o.attempts[i]? = some a → o.attempts[i+1]? = some b → b.cons = (p.newCons (cnt + 1 + i + 1)).getD a.cons)) →
+          ((∀ a, (o.push a0).attempts[0]? = some a → a.cons = cons) ∧
+           (∀ i a b, (o.push a0).attempts[i]? = some a → (o.push a0).attempts[i+1]? = some b →
+              b.cons = (p.newCons (cnt + i + 1)).getD a.cons)) := by
+        intro o a0 h0 ⟨g1, g2⟩
+        refine ⟨?_, ?_⟩
+        · intro a ha; simp [Out.push] at ha; subst ha; exact h0
+        · intro i a b ha hb
+          cases i with
+          | zero =>
+            simp [Out.push] at ha hb
+            subst ha
+            rw [g1 b hb, h0]
+          | succ i =>
+            simp only [Out.push, List.getElem?_cons_succ] at ha hb
+            have := g2 i a b ha hb
+            rw [this]; congr 2; omega
+      simp only [doLoop, Req.record_eq]
+      cases hr : outcome k with
+      | logical => simp
+      | ok => simp
+      | err e =>
+        simp only []
+        by_cases hat : p.attempt (cnt + 1) = true
+        · simp only [hat, Bool.not_true, Bool.false_eq_true, if_false]
+          cases p.rtype e with
+          | retry => exact push _ _ rfl (ih (some h) rest (k+1) (cnt+1) _ (some e))
+          | rethrow => simp
+          | ignore => simp
+          | unknown => simp
+          | nextHost =>
+            simp only []
+            cases nextUsable rest with
+            | none => exact push _ _ rfl (ih none [] (k+1) (cnt+1) _ (some e))
+            | some hr' =>
+              obtain ⟨h', rest'⟩ := hr'
+              exact push _ _ rfl (ih (some h') rest' (k+1) (cnt+1) _ (some e))
+        · have hat' : p.attempt (cnt + 1) = false := by simpa using hat
+          simp only [hat', Bool.not_false, if_true]
+          simp
 
 end Executor
